@@ -57,6 +57,8 @@ package http
 //@        && ($iter1 == 2 ==> arg(1) == "/health") && ($iter1 == 3 ==> arg(1) == "/metrics")
 //@   call (Engine).applyAuthMiddleware #1 requires [all-four-bound-before-auth] $iter1 == 4 && arg(2) == "/internal" && arg(3) == h.config.Internal.Auth
 //@   ensures [success-only-through-auth-setup] isNilIface(result) ==> did(call (Engine).applyAuthMiddleware #1) && isNilIface(ret(call (Engine).applyAuthMiddleware #1))
+// middlewares run in the order they are installed: the rate limiter (shared state) comes after authentication
+//@   call (Engine).applyRateLimiterMiddleware #1 requires [rate-limit-only-for-authenticated-requests] did(call (Engine).applyAuthMiddleware #1) && isNilIface(ret(call (Engine).applyAuthMiddleware #1))
 
 // "When API token authentication is enabled" the middleware really is installed: success with
 // token_v2 configured means the authenticator was built from the configured audience (or the host
